@@ -308,6 +308,7 @@ class GriffeLoader:
         *,
         external: bool | None = None,
         seen: set | None = None,
+        submodules: bool = True,
     ) -> None:
         """Expand wildcards: try to recursively expand all found wildcards.
 
@@ -317,6 +318,7 @@ class GriffeLoader:
             obj: The object and its members to recurse on.
             external: When true, try to load unspecified modules to expand wildcards.
             seen: Used to avoid infinite recursion.
+            submodules: Whether to recurse on the submodules (after expanding the wildcards of the object itself).
         """
         expanded = []
         to_remove = []
@@ -356,7 +358,7 @@ class GriffeLoader:
                 # Recurse into this module, expanding wildcards there before collecting everything.
                 if target.path not in seen:
                     try:
-                        self.expand_wildcards(target, external=external, seen=seen)
+                        self.expand_wildcards(target, external=external, seen=seen, submodules=False)
                     except (AliasResolutionError, CyclicAliasError) as error:
                         logger.debug("Could not expand wildcard import %s in %s: %s", member.name, obj.path, error)
                         continue
@@ -364,10 +366,6 @@ class GriffeLoader:
                 # Collect every imported object.
                 expanded.extend(self._expand_wildcard(member))  # type: ignore[arg-type]
                 to_remove.append(member.name)
-
-            # Recurse in unseen submodules.
-            elif not member.is_alias and member.is_module and member.path not in seen:
-                self.expand_wildcards(member, external=external, seen=seen)  # type: ignore[arg-type]
 
         # Then we remove the members representing wildcard imports.
         for name in to_remove:
@@ -420,6 +418,13 @@ class GriffeLoader:
                 # Everything went right (supposedly), we add the alias as a member of the current object.
                 obj.set_member(new_member.name, alias)
                 self.extensions.call("on_wildcard_expansion", alias=alias, loader=self)
+
+        # Only now do we recurse in submodules: the ones that wildcard import from the current object
+        # (or from a module that does) must see the result of its own wildcard imports.
+        if submodules:
+            for member in list(obj.members.values()):
+                if not member.is_alias and member.is_module:
+                    self.expand_wildcards(member, external=external, seen=seen)  # type: ignore[arg-type]
 
     def resolve_module_aliases(
         self,
